@@ -55,7 +55,7 @@ def make_trace(seed, tier, events=True, plan_override=None, name="ledger"):
             os.remove(tmp)
 
     def produce(path):
-        args = ["run", "--scenarios", scen_path, "--trace", path]
+        args = ["run", "--scenarios", scen_path, "--trace", path, "--update-timeout", "1200"]
         if events:
             args.append("--events")
         ordv(args, timeout=7200)
@@ -152,6 +152,11 @@ def plan_c15(tier):
                           update_every=3, tag="f", seed_offset=0))
         parts.append(dict(n=3 if tier == "quick" else 20, blocks=28, flags=fl, chain="regtest", update_every=4,
                           tag="g", seed_offset=1, family="runes"))
+    if tier == "thorough":
+        # signet: blocks below the first inscription height (112,402) are header-only, so the values of the
+        # outputs spent afterwards are fetched from the node (the path without a full UTXO index)
+        for fl in ["runes", "", "runes,transactions"]:
+            parts.append(dict(n=2, blocks=18, flags=fl, chain="signet", update_every=3, tag="h", seed_offset=2, family="signet"))
     return parts
 
 
